@@ -285,7 +285,7 @@ theorem C08_gate (s : Srv) (hmod : s.cfg.hasMod = true) (k : Nat) (u : Str) (id 
     (∀ e ∈ (doBroadcast s k u id raw q p env).2, e.frame.isMessage = true →
         (env.verdict = .valid ∧ ∃ f c, e.frame = .message f c p) ∨
         (∃ p', env.verdict = .altered p' ∧ ∃ f c, e.frame = .message f c p')) ∧
-    ((env.verdict = .invalid ∨ env.verdict = .failed ∨ env.down = true) →
+    ((env.verdict = .invalid ∨ env.verdict = .failed ∨ env.down = true ∨ env.verdict = .altered []) →
         (∀ e ∈ (doBroadcast s k u id raw q p env).2, e.frame.isMessage = false) ∧
         (closedWithErrorId k id (doBroadcast s k u id raw q p env).2 ∨ p.isEmpty = true ∨ q.any (· > 1) = true ∨ id = 0
           ∨ p.length > s.cfg.maxPayload ∨ Id.parseChannelId raw = none)) := by
@@ -299,16 +299,23 @@ theorem C08_gate (s : Srv) (hmod : s.cfg.hasMod = true) (k : Nat) (u : Str) (id 
   · intro hbad
     have hgate : ∀ p', payloadGate s p env ≠ .ok p' := by
       intro p' h
+      have hraw := h
       rcases payloadGate_ok h with ⟨hno, _⟩ | ⟨_, hup, ⟨hv, _⟩ | hv⟩
       · rw [hmod] at hno; cases hno
-      · rcases hbad with h' | h' | h'
+      · rcases hbad with h' | h' | h' | h'
         · rw [hv] at h'; cases h'
         · rw [hv] at h'; cases h'
         · rw [hup] at h'; cases h'
-      · rcases hbad with h' | h' | h'
+        · rw [hv] at h'; cases h'
+      · rcases hbad with h' | h' | h' | h'
         · rw [hv] at h'; cases h'
         · rw [hv] at h'; cases h'
         · rw [hup] at h'; cases h'
+        · -- an alteration to nothing: the gate itself refuses it
+          rw [hv] at h'
+          cases h'
+          unfold payloadGate at hraw
+          simp [hmod, hup, hv] at hraw
     constructor
     · intro e he
       cases hm : e.frame.isMessage
@@ -343,10 +350,28 @@ theorem C08_gate (s : Srv) (hmod : s.cfg.hasMod = true) (k : Nat) (u : Str) (id 
                 simp only [if_true] at hg
                 split at hg
                 · cases hg; rfl
-                · split at hg <;> cases hg <;> rfl
+                · split at hg
+                  · cases hg
+                  · split at hg <;> cases hg <;> rfl
+                  · cases hg; rfl
+                  · cases hg; rfl
               unfold closedWithErrorId fail
               simp only [hr, Bool.false_eq_true, if_false]
               exact ⟨_, List.mem_cons_self, rfl, rfl, r, rfl⟩
+
+/-- **C08 / C02: every MESSAGE of a BROADCAST carries a non-empty payload** — so it can always be serialised (a MESSAGE's
+    `length` must be non-zero): an alteration to nothing is refused at the gate instead of tearing down the subscribers -/
+theorem C08_message_payload_nonempty (s : Srv) (k : Nat) (u : Str) (id : Nat) (raw : Str) (q : Option Nat) (p : Payload)
+    (env : Env) (e : Emit) (he : e ∈ (doBroadcast s k u id raw q p env).2) (f c : Str) (p' : Payload)
+    (hfr : e.frame = .message f c p') : p' ≠ [] := by
+  have hm : e.frame.isMessage = true := by rw [hfr]; rfl
+  obtain ⟨cc, p'', hc, hd⟩ := broadcast_messages s k u id raw q p env e he hm
+  obtain ⟨_, _, _, hg, _, _, hpne⟩ := broadcastCheck_ok hc
+  unfold deliveries at hd
+  obtain ⟨hfr', _⟩ := routeTo_mem hd
+  rw [hfr] at hfr'
+  cases hfr'
+  exact payloadGate_nonempty hg hpne
 
 end Narwhal.Server
 
@@ -357,3 +382,4 @@ end Narwhal.Server
 #print axioms Narwhal.Server.C02_ack_iff_delivered
 #print axioms Narwhal.Server.C02_exactly_once
 #print axioms Narwhal.Server.C08_gate
+#print axioms Narwhal.Server.C08_message_payload_nonempty
